@@ -1,0 +1,5 @@
+//go:build !verif
+
+package runtime
+
+func verifEvent(vm *VM, ev string, name string, n int) {}
